@@ -254,7 +254,7 @@ def save_replay(prop, v, extra_files=None, lines_from=None):
                 e = json.loads(line)
             except Exception:
                 continue
-            if e.get("ev") == "cfg":
+            if e.get("ev") in ("cfg", "mwcfg"):
                 on = e.get("label") == v["scen"]
             if on:
                 sl.append(e)
